@@ -23,6 +23,7 @@ const PROPS: &[PropSpec] = &[
     PropSpec { id: "C05", engine: "dsim", profile: "dml", level: "exploration", quick_runs: 2000, thorough_runs: 40000 },
     PropSpec { id: "C06", engine: "dsim", profile: "fail", level: "exploration", quick_runs: 2000, thorough_runs: 40000 },
     PropSpec { id: "C07", engine: "dsim", profile: "txn", level: "exploration", quick_runs: 2000, thorough_runs: 40000 },
+    PropSpec { id: "C08", engine: "dsim", profile: "iso", level: "exploration", quick_runs: 1500, thorough_runs: 30000 },
     PropSpec { id: "C09", engine: "dsim", profile: "cons", level: "exploration", quick_runs: 2000, thorough_runs: 40000 },
     PropSpec { id: "C10", engine: "dsim", profile: "index", level: "exploration", quick_runs: 1500, thorough_runs: 30000 },
     PropSpec { id: "C11", engine: "dsim", profile: "values", level: "exploration", quick_runs: 1500, thorough_runs: 30000 },
